@@ -113,6 +113,9 @@ func (srv *Server) readModList() error {
 	for _, entry := range entries {
 		name := entry.Name()
 		switch {
+		case entry.IsDir():
+			// A directory's name is path_vers as it stands: a version such as
+			// v1.0.0-rc.txt is not an archive's file name extension.
 		case strings.HasSuffix(name, ".txt"):
 			name = strings.TrimSuffix(name, ".txt")
 		case strings.HasSuffix(name, ".txtar"):
